@@ -3,6 +3,7 @@ from vlib.tok import f64, s as S, lst
 from checks.storegen import World, NAMES, PLAIN, BAD_NAMES
 ID = 'C09'
 LEAN_MODULES = ['NixModel.Props.C09', 'NixModel.Props.C09Catches', 'NixModel.Gen.Catches']
+TECHNIQUE = 'Lean 4 proof over a hand-written model of the open modes + a table translated from the source on every run (every exception handler: none swallows) + differential correspondence (trace validation, raw bytes of the file) with the built library'
 THEOREMS = ['Nix.Catches.no_handler_swallows', 'Nix.Catches.one_query_handler', 
     'Nix.C09.ro_missing_refused', 'Nix.C09.ro_missing_refused_rel', 'Nix.C09.ro_open_never_writes', 'Nix.C09.ro_open_exposes',
     'Nix.C09.headerDefect_iff_not_ok', 'Nix.C09.gate_passes_iff', 'Nix.C09.bad_header_refused', 'Nix.C09.plain_hdf5_refused',
